@@ -208,4 +208,18 @@ PROPS = {
                      "during creation are covered and write-protected", ASAN_NOTE],
         technique="runtime monitoring: source snapshots + table hashing under ASan, and write-protected (mprotect) tables",
     ),
+    "C07": dict(
+        runs=std(),
+        rule=("case = one pair comparison (accelerated catalogue entry ~ its reference twin, N, argument seed) or one "
+              "dispatch comparison (public entry point under generic-C and accelerated dispatch, N, seed); both members "
+              "receive identical arguments; distinct by descriptor hash; non-trivial when the compared output is non-empty"),
+        require={"all": ["pair_comparisons", "dispatch_comparisons", "class:bitwise", "class:modq", "class:float-budget",
+                         "class:rounded-int64", "pair:cplx_fftvec_addmul_avx512", "pair:cplx_fftvec_addmul_sse",
+                         "pair:reim_fft16_avx_fma", "pair:fft64_vmp_apply_dft_to_dft_avx"]},
+        assumptions=["pairwise floating-point budget: relative 2-norm difference <= 2^-42 on the catalogue's random operands "
+                     "(each member is separately held to the tight per-kernel budgets against exact oracles by C01, C02, "
+                     "C06, C10, C14 and C17)", "exact rounding ties may go either way between variants",
+                     "the symbol table of the built library is cross-checked against the catalogue (evidence: "
+                     "uncovered_accelerated_symbols)", ASAN_NOTE],
+    ),
 }
